@@ -294,6 +294,13 @@ def run_case(base, case, acc, rec_override=None):
                 acc.violation("C17/add_loopless/optimal-although-no-loop-free-optimum", f"status optimal ({sol.objective_value}) but no loop-free distribution exists ({st})", w())
             return
         if sol.status != "optimal":
+            # same mechanism check as below: with every energy variable capped by the largest
+            # flux bound M there may be no admissible sign pattern left at all
+            M = max(max(abs(b) for b in r.bounds) for r in model.reactions)
+            st_c, _best_c = oracles.loopless_opt(P, cyc, cyc.feasible_orientations(bounds, limit=6, gmax=M))
+            if st_c == "infeasible" and sol.status == "infeasible":
+                acc.violation("C17/add_loopless/energy-variables-capped-by-largest-flux-bound", f"status infeasible after add_loopless, the exact loop-free optimum is {float(best)}; with |G_i| <= M = {M} no sign pattern is admissible (exactly infeasible)", w(M=M))
+                return
             acc.violation("C17/add_loopless/no-optimum-although-loop-free-optimum-exists", f"status {sol.status}; the loop-free optimum is {float(best)}", w())
             return
         if abs(sol.objective_value - float(best)) > 1e-5 * max(1.0, abs(float(best))):
